@@ -101,12 +101,15 @@ theorem afterInit_geo (s : State F) (rows cols n : Nat) (hs : s.ctl = .run) (hsh
 
 /-! ### the whole program -/
 
-/-- what the generated program returns, in terms of the hand model -/
-def modelOut (rows cols n : Nat) (D : List F) : List F :=
-  (gridCells rows cols).map fun c =>
-    match regions rows cols (decide (n = 8)) closeF (dataOf cols D) c with
-    | none => at_ cols D c
-    | some k => lab k
+/-- what the generated program returns at cell `c`, in terms of the hand model: the input value at a NaN cell,
+    else the number of the model's label -/
+def cellOut (rows cols n : Nat) (D : List F) (c : Cell) : F :=
+  match regions rows cols (decide (n = 8)) closeF (dataOf cols D) c with
+  | none => at_ cols D c
+  | some k => lab k
+
+/-- what the generated program returns -/
+def modelOut (rows cols n : Nat) (D : List F) : List F := (gridCells rows cols).map (cellOut rows cols n D)
 
 /-- **the refinement theorem**: `Gen.IL.areaConnectivity` computes `Regions.regions` -/
 theorem areaConnectivity_refines (laws : LabelLaws F) (s : State F) (fuel rows cols n : Nat) (hs : s.ctl = .run)
@@ -155,6 +158,7 @@ theorem areaConnectivity_refines (laws : LabelLaws F) (s : State F) (fuel rows c
   unfold modelOut
   apply List.map_congr_left
   intro c hc
+  unfold cellOut
   obtain ⟨h1, h2⟩ := mem_gridCells.mp hc
   cases hnan : Fl.isnan (at_ cols D c) with
   | true =>
